@@ -179,7 +179,7 @@ def apply_fault(cfg, fault, draw):
 
 @st.composite
 def _cases(draw, tier):
-    kind = draw(st.sampled_from(['wellformed', 'fault', 'fault', 'minversion', 'minversion', 'require']))
+    kind = draw(st.sampled_from(['wellformed', 'fault', 'fault', 'minversion', 'minversion', 'require', 'require']))
     cfg = draw(isagen.full_isa())
     cfg['general'].pop('min_version', None)
     fmt = 'yaml' if isagen.has_int_keys(cfg) else draw(st.sampled_from(['yaml', 'json']))
@@ -223,7 +223,7 @@ def _cases(draw, tier):
             rv = draw(st.sampled_from(['0.0.1', '0.0.0', '0.0.1']))      # version zero against its nearest neighbours
             req_name = name
         m_pre = re.match(r'^(\d+\.\d+\.\d+)(?:a|b|rc)\d+$', str(ver))
-        if m_pre and draw(st.booleans()):
+        if m_pre and draw(st.integers(0, 3)) != 0:
             rv = m_pre.group(1)          # a pre-release against the release it precedes
             op = draw(st.sampled_from(['<', '<', '<', '<=', '>', '>=', '==']))
         req = f'#require "{req_name} {op} {rv}"'
